@@ -181,6 +181,8 @@ def random_type(rng, traits, opts=None):
         n = rng.randint(lo, max(lo, o.max_fields))
         if rng.random() < 0.08:
             n = rng.randint(o.max_fields + 1, o.max_fields + 3)   # the occasional wide variant
+        if rng.random() < 0.025 and o.max_fields >= 3:
+            n = rng.randint(13, 16)   # wider than the tuples core implements its traits for
         if n == 0 and rng.random() < 0.7:
             n = 1
         fields = []
